@@ -145,6 +145,18 @@ def mutants(design, classes=None):
                         if dec:
                             for owner in ("none", "other"):
                                 out.append(("orphan_bundle", site + "/" + owner, replace_conn(design, mname, di, ci, set_at(e, path, ("ob", dec[2], owner))), {"orphan"}))
+                            # a bundle instance of another type: one member more / one member fewer than the port's bundle
+                            bdef = design["bundles"].get(dec[2])
+                            if bdef and not bdef.get("builtin") and dec[0] == "binst":
+                                for tag, sigs, reason in (("more", list(bdef["sigs"]) + [("zzextra", 1, "sig")], "extra_member"),
+                                                          ("fewer", list(bdef["sigs"])[:-1], "bad_member")):
+                                    if not sigs and not bdef["subs"]:
+                                        continue
+                                    dm = replace_conn(design, mname, di, ci, set_at(e, path, ("b", "zzother")))
+                                    dm["bundles"] = dict(dm["bundles"])
+                                    dm["bundles"][dec[2] + "_" + tag] = {"sigs": sigs, "subs": list(bdef["subs"])}
+                                    dm["modules"][mname]["decls"] = list(dm["modules"][mname]["decls"]) + [("binst", "zzother", dec[2] + "_" + tag)]
+                                    out.append(("bundle_type", site + "/" + tag, dm, {reason}))
                     elif k == "bref":
                         out.append(("bad_member", site, replace_conn(design, mname, di, ci, set_at(e, path, ("bref", sub[1], list(sub[2]) + ["zz"]))), {"bad_member"}))
                         out.append(("bad_member", site, replace_conn(design, mname, di, ci, set_at(e, path, ("bref", sub[1], list(sub[2])[:-1] + ["zz"]))), {"bad_member"}))
